@@ -201,7 +201,7 @@ fn changeable(cases: &str) {
 			ch_run(&c2, &ops);
 			let _ = tx.send(());
 		});
-		let res = match rx.recv_timeout(Duration::from_secs(3)) {
+		let res = match rx.recv_timeout(Duration::from_millis(800)) {
 			Ok(()) => if ctx.bad.load(std::sync::atomic::Ordering::SeqCst) { "badhandle" } else { "done" },
 			Err(_) => "deadlock",
 		};
